@@ -218,6 +218,21 @@ def shard_reused_outdir(res, scratch):
                 t = run.gfa("complete")
                 if t is not None and set(rgfa.Graph.parse(t).segs) & set(comps[badi].g.segs):
                     res.fail("C18/skipped-component-in-complete-file", f"[{shape} at {comps[badi].chrom}] after an earlier --by-chrom run into the same directory, nodes of the skipped component appear in the complete file", case)
+                # a merged run of the all-chain graph first (it leaves complete.gfa / complete.csv behind), then the merged run
+                # with the non-chain: its files must equal those of the same request in a fresh directory
+                oc.run_order(scratch, g1.text(), req, by_chrom=False, tag="hist2")
+                again = oc.run_order(scratch, g2.text(), req, by_chrom=False, tag="hist2", keep_outdir=True)
+                fresh = oc.run_order(scratch, g2.text(), req, by_chrom=False, tag="fresh")
+                res.evaluations += 1
+                res.count("two_step_histories")
+                case2 = dict(case, earlier_run_in_same_outdir={"gfa": g1.text(), "by_chrom": False})
+                if again.outcome.kind == "ok" and fresh.outcome.kind == "ok":
+                    a, b = outputs_of(again, [], False), outputs_of(fresh, [], False)
+                    if a != b:
+                        part = ["S lines", "links", "CSV"][next((i for i in range(3) if a.get("complete", (0, 0, 0))[i] != b.get("complete", (1, 1, 1))[i]), 2)]
+                        res.fail("C18/reused-directory-differs", f"[{shape} at {comps[badi].chrom}] --chromosome_order {req} after an earlier merged run into the same directory: the complete files differ from those of a fresh directory ({part})", case2)
+                elif again.outcome.kind != fresh.outcome.kind:
+                    res.fail(f"C18/command-failed:{again.outcome.sig()}", f"[{shape} at {comps[badi].chrom}, output directory reused after a merged run] {again.outcome.brief()}", case2)
 
 
 def no_articulation_component(chrom, id_base, hap, kind):
@@ -342,6 +357,17 @@ def replay(case, scratch):
         run = oc.run_order(scratch, case["gfa"], case["chromosome_order"], by_chrom=case["by_chrom"], tag="open")
         if run.outcome.kind != "ok":
             res.fail(f"C18/command-failed:{run.outcome.sig()}", run.outcome.brief(), case)
+        return res.failures
+    if case.get("earlier_run_in_same_outdir") and not case["earlier_run_in_same_outdir"].get("by_chrom"):
+        e = case["earlier_run_in_same_outdir"]
+        oc.run_order(scratch, e["gfa"], case["chromosome_order"], by_chrom=False, tag="hist2")
+        again = oc.run_order(scratch, case["gfa"], case["chromosome_order"], by_chrom=False, tag="hist2", keep_outdir=True)
+        fresh = oc.run_order(scratch, case["gfa"], case["chromosome_order"], by_chrom=False, tag="fresh")
+        if again.outcome.kind == "ok" and fresh.outcome.kind == "ok":
+            if outputs_of(again, [], False) != outputs_of(fresh, [], False):
+                res.fail("C18/reused-directory-differs", "the complete files differ from those of a fresh directory", case)
+        elif again.outcome.kind != fresh.outcome.kind:
+            res.fail(f"C18/command-failed:{again.outcome.sig()}", again.outcome.brief(), case)
         return res.failures
     if case.get("earlier_run_in_same_outdir"):
         e = case["earlier_run_in_same_outdir"]
